@@ -171,6 +171,10 @@ func (c *Client) Handshake() error {
 		return err
 	}
 
+	if helo.Options == nil {
+		return errors.New("HELO carries no options")
+	}
+
 	salt := make([]byte, 16)
 
 	_, err = rand.Read(salt)
